@@ -63,7 +63,7 @@ impl Property for C15 {
          every directory, scripts that chdir before redo-ifchange; commands issued from a random working \
          directory naming 1-3 real files by 2-4 spellings each (relative, ./, detour through .., doubled \
          slash, absolute, via the symlink) on one command line, at -j1 and -jN, in one or two successive \
-         commands with different spellings; oracle: no crash, exit 0, at most one script execution per \
+         commands with different spellings; oracle: no crash, exit 0, no new state directory below the working directory, at most one script execution per \
          real file per invocation, every name recorded in the state database is the canonical \
          root-relative path (one row per real file), contents equal the from-scratch evaluator; \
          non-trivial = >=1 preemption and >=1 script; distinct = (scenario, preemption signature)"
@@ -185,6 +185,33 @@ impl Property for C15 {
                     ),
                 });
                 continue;
+            }
+            // one project, one state directory: a command given in directory D
+            // works with the state directory of D or of an ancestor, never with a
+            // new one below D (which would give the files there second records
+            // and second locks)
+            {
+                let before: std::collections::BTreeSet<&String> = if g.step_idx == 0 {
+                    Default::default()
+                } else {
+                    rec.fs_after[g.step_idx - 1].keys().collect()
+                };
+                let prefix = if cmd.cwd.is_empty() { String::new() } else { format!("{}/", cmd.cwd) };
+                let newdirs: std::collections::BTreeSet<String> = rec.fs_after[g.step_idx]
+                    .keys()
+                    .filter(|k| !before.contains(k))
+                    .filter_map(|k| k.find("/.redo/").map(|i| k[..i].to_string()))
+                    .filter(|d| d.starts_with(&prefix) && *d != cmd.cwd)
+                    .collect();
+                if !newdirs.is_empty() {
+                    v.push(Violation {
+                        kind: "second-state-directory".into(),
+                        detail: format!(
+                            "{:?} (cwd {:?}) created a state directory below its working directory: {:?}",
+                            cmd.argv, cmd.cwd, newdirs
+                        ),
+                    });
+                }
             }
             for (t, n) in exec_counts(g) {
                 // `redo` forces every named target once; dependencies once
